@@ -306,22 +306,35 @@ func c16(c *core.Ctx) {
 		for _, h := range favourites {
 			_, _ = stun.ParseURI(h)
 		}
-		earlyMin, earlyMedian := minOf(7, fresh), median()
+		// (the costly call need not be the very first fresh one: a table may first have to work through its other
+		// entries. So each repetition takes the slowest of 400 consecutive fresh parses - a window of well under a
+		// millisecond on the unchanged tree - and the minimum over the repetitions is judged.)
+		slowestOf400 := func(tag int) time.Duration {
+			var worst time.Duration
+			for k := 0; k < 400; k++ {
+				if d := fresh(tag*1000 + k); d > worst {
+					worst = d
+				}
+			}
+
+			return worst
+		}
+		earlyMin, earlyMedian := minOf(7, slowestOf400), median()
 		lateMin := minOf(7, func(k int) time.Duration {
 			for j := 0; j < 400000; j++ {
 				_, _ = stun.ParseURI(favourites[j%100])
 			}
 
-			return fresh(1000 + k)
+			return slowestOf400(100 + k)
 		})
 		lateMedian := median()
-		c.Max("first_fresh_parse_after_400k_hits_min_of_7_ns", lateMin.Nanoseconds())
-		c.Max("fresh_parse_min_of_7_before_ns", earlyMin.Nanoseconds())
+		c.Max("slowest_of_400_fresh_parses_after_400k_hits_min_of_7_ns", lateMin.Nanoseconds())
+		c.Max("slowest_of_400_fresh_parses_min_of_7_before_ns", earlyMin.Nanoseconds())
 		c.Max("median_fresh_parse_after_history_ns", lateMedian.Nanoseconds())
 		c.Count("hits_before_late_measurements", 7*400000)
 		if (lateMin > time.Millisecond && lateMin > 100*earlyMin) || (lateMedian > time.Millisecond && lateMedian > 100*earlyMedian) {
 			c.Violate("time-grows-with-history", "time-grows-with-history", map[string]interface{}{
-				"problem": "parsing a fresh 30-byte URI after a long run of parses of 100 other URIs: minimum over 7 repetitions of the first parse after 400000 hits, and median of 301 parses, against the same before the history",
+				"problem": "parsing a fresh 30-byte URI after a long run of parses of 100 other URIs: minimum over 7 repetitions of the slowest of 400 fresh parses after 400000 hits, and median of 301 parses, against the same before the history",
 				"first_after_hits_min_ns": lateMin.Nanoseconds(), "min_before_ns": earlyMin.Nanoseconds(), "median_after_ns": lateMedian.Nanoseconds(), "median_before_ns": earlyMedian.Nanoseconds()})
 		}
 	})
